@@ -13,19 +13,6 @@ size_t      g_held0;              /* ghost equation: PRE-state value of PUSH_HEL
 size_t      g_ready_calls;        /* calls of push0_pipe_ready where it is replaced by its counting contract */
 push0_pipe *g_ready_last;
 nni_aio    *g_ca;                 /* push0_cancel: the aio being cancelled (harness-built) */
-/* option copy-in (src/core/options.c): ASSUMED - refuses with some error, or yields an int in [minv, maxv] */
-int     g_copyin_rv;
-int     g_copyin_val;
-nng_err nni_copyin_int(int *ip, const void *v, size_t sz, int minv, int maxv, nni_type t)
-{
-	(void) v; (void) sz; (void) t;
-	if (g_copyin_rv != 0) {
-		return ((nng_err) g_copyin_rv);
-	}
-	__CPROVER_assume(g_copyin_val >= minv && g_copyin_val <= maxv);
-	*ip = g_copyin_val;
-	return (NNG_OK);
-}
 /* blocked senders: ASSUMED environment invariant - every aio on the wait list s->aq carries the message it wants
  * to send (nni_sock_send rejects an aio without one).  env_proto.h materialises an unknown next member of a ghost
  * queue as a new aio object with unconstrained content; this wrapper gives such a member a message object. */
